@@ -37,7 +37,8 @@ ASSUMPTIONS = [
 ]
 MINIMUMS = {
     'quick': {'evaluations': 1200, 'objects_with>=3_paths': 150, 'cyclic_cases': 80, 'custom_registry_cycles': 15, 'get_all_paths_checked': 5000, 'rebuilds_checked': 3000,
-              'paths_checked': 30000, 'tempbox_structures': 100, 'positional_buildables': 100},
+              'paths_checked': 30000, 'tempbox_structures': 100, 'positional_buildables': 100,
+              'idreuse_results_checked': 2500},
     'thorough': {'evaluations': 1000},
 }
 
@@ -54,6 +55,8 @@ def plan(tier):
   nc = 60 if tier == 'quick' else 6000
   shards += [{'name': f'cyc{i}', 'kind': 'cycle', 'n': nc, 'start': i * nc, 'timeout': 600}
              for i in range(2)]
+  ni = 1500 if tier == 'quick' else 60000
+  shards += [{'name': f'idreuse{i}', 'kind': 'idreuse', 'n': ni, 'start': i * ni} for i in range(2)]
   return shards
 
 
@@ -519,8 +522,51 @@ def run_cycle(spec, acc):
                     f'(cycle through a {kind})', {'structure_before_cycle': sketch, 'cycle_through': kind})
 
 
+def run_idreuse(spec, acc):
+  """Memoised traversals over node types whose flatten creates temporaries: a memo keyed by id()
+  that does not keep its key object alive hits the entry of a DEAD temporary when the allocator
+  hands the address to the sibling's temporary. Allocation dependent, hence many small runs; each
+  box holds a value that names its position, so a wrong memo hit is visible in the result."""
+  from vt.nodes import TempBox
+  ident_runs = [
+      ('memoized-map_children',
+       lambda s: daglish.MemoizedTraversal.run(lambda v, st: st.map_children(v), s)),
+      ('legacy.memoized_traverse', lambda s: daglish_legacy.memoized_traverse(_ident2, s)),
+  ]
+  for i, rng in acc.cases(spec):
+    k = rng.choice([2, 2, 3, 5])
+    width = rng.choice([1, 1, 2])
+    for name, run in ident_runs:
+      vals = [[[f'v{j}.{w}', i] for w in range(width)] for j in range(k)]
+      s = {f'b{j}': TempBox(vals[j]) for j in range(k)}
+      if rng.random() < 0.5:
+        s = [s[f'b{j}'] for j in range(k)]
+      acc.case(('idreuse', name, k, width, type(s).__name__))
+      try:
+        r = run(s)
+      except KeyError as e:
+        # legacy traversals look temporaries up in a path table built by an earlier pass
+        acc.violation(f'{name}:raises:KeyError:tempbox', repr(e)[:100], {'structure': repr(s)[:300]})
+        continue
+      except Exception as e:  # pylint: disable=broad-except
+        acc.violation(f'{name}:raises:{type(e).__name__}:tempbox', repr(e)[:200], {'structure': repr(s)[:300]})
+        continue
+      boxes = [r[f'b{j}'] for j in range(k)] if isinstance(r, dict) else list(r)
+      got = [b.items for b in boxes]
+      acc.obs('idreuse_results_checked')
+      if got != vals:
+        acc.violation(f'{name}:sharing-lost-or-changed:tempbox',
+                      'identity traversal returned the output computed for another object',
+                      {'structure': repr(s)[:300], 'result': repr(r)[:300]})
+      elif any(x is y for a_ in got for x in a_ for b_ in vals for y in b_):
+        acc.violation(f'{name}:result-shares-input-children:tempbox',
+                      'rebuilt boxes hold the input lists by identity', {'structure': repr(s)[:300]})
+
+
 def run_shard(spec, seed, acc):
   if spec['kind'] == 'main':
     run_main(spec, acc)
+  elif spec['kind'] == 'idreuse':
+    run_idreuse(spec, acc)
   else:
     run_cycle(spec, acc)
